@@ -35,16 +35,52 @@ class ScriptExhausted(BaseException):
     (BaseException: passes through every `except` clause of Retry.__call__)"""
 
 
-def _meta(status):
+def _meta(status, shape=0):
     import elastic_transport
 
+    headers = [
+        elastic_transport.HttpHeaders(),
+        elastic_transport.HttpHeaders({"content-type": "text/html; charset=UTF-8", "retry-after": "1", "x-elastic-product": "Elasticsearch"}),
+    ][shape % 2]
     return elastic_transport.ApiResponseMeta(
         status=status,
-        http_version="1.1",
-        headers=elastic_transport.HttpHeaders(),
-        duration=0.0,
+        http_version=["1.1", "2"][(shape // 2) % 2],
+        headers=headers,
+        duration=[0.0, 0.25][shape % 2],
         node=elastic_transport.NodeConfig(scheme="http", host="localhost", port=9200),
     )
+
+
+def _api_body(shape, status, marker):
+    """response body of an API error in the shapes elasticsearch-py hands over: parsed JSON of any form, raw text / HTML / bytes"""
+    shapes = [
+        None,
+        {},
+        {"error": {"type": marker, "reason": f"reason for {marker}", "root_cause": [{"type": marker, "reason": "r"}]}, "status": status},
+        {"error": f"string {marker}", "status": status},
+        f"upstream request timeout ({marker})",
+        f"<html><body><center><h1>{status}</h1></center><hr>{marker}</body></html>",
+        f"bytes {marker}".encode(),
+        ["list", marker],
+        {"error": {"type": marker}},
+        {"message": marker, "statusCode": status},
+        {"error": None},
+        "",
+    ]
+    return shapes[shape % len(shapes)]
+
+
+def _api(cls, message, status, variant, idx):
+    shape = variant * 5 + idx  # rotates through all body / header shapes over the script positions
+    return cls(message, _meta(status, shape), _api_body(shape, status, message or "m"))
+
+
+class _Opaque:
+    def __init__(self, text):
+        self.text = text
+
+    def __str__(self):
+        return self.text
 
 
 def make_outcome(kind, variant, idx):
@@ -81,47 +117,48 @@ def make_outcome(kind, variant, idx):
     if kind == "connError":
         return False, [
             elasticsearch.exceptions.ConnectionError(message="no route to host"),
-            elasticsearch.ConnectionError("refused"),
-            elastic_transport.ConnectionError("reset"),
+            elasticsearch.ConnectionError(_Opaque("refused")),
+            elastic_transport.ConnectionError(OSError(104, "reset"), errors=(OSError(104, "reset"),)),
             elastic_transport.TlsError("tls"),
-            elasticsearch.exceptions.SSLError("ssl"),
+            elasticsearch.exceptions.SSLError("", errors=(ValueError("a"), ValueError("b"))),
             elasticsearch.exceptions.ConnectionError("x", errors=(OSError("e"),)),
         ][v]
     if kind == "connTimeout":
         return False, [
             elasticsearch.exceptions.ConnectionTimeout(message="timed out"),
-            elasticsearch.ConnectionTimeout("t"),
-            elastic_transport.ConnectionTimeout("t2"),
+            elasticsearch.ConnectionTimeout(""),
+            elastic_transport.ConnectionTimeout(_Opaque("t2")),
             elasticsearch.exceptions.ConnectionTimeout("t3", errors=(TimeoutError(),)),
-            elasticsearch.ConnectionTimeout("t4"),
-            elastic_transport.ConnectionTimeout("t5"),
+            elasticsearch.ConnectionTimeout(TimeoutError("t4"), errors=(TimeoutError("t4"), OSError("o"))),
+            elastic_transport.ConnectionTimeout("t5\nline two"),
         ][v]
     if kind == "api408":
         return False, [
-            elasticsearch.ApiError("request_timeout", _meta(408), {"error": "timeout"}),
-            elasticsearch.ApiError("408", _meta(408), None),
-            elasticsearch.ApiError("rt", _meta(408), {}),
-            elasticsearch.exceptions.ApiError("request_timeout", _meta(408), "x"),
-            elasticsearch.ApiError("t", _meta(408), {"error": {"root_cause": [{"reason": "r"}]}}),
-            elasticsearch.ApiError("", _meta(408), None),
+            _api(elasticsearch.ApiError, "request_timeout", 408, v, idx),
+            _api(elasticsearch.ApiError, "408", 408, v, idx),
+            _api(elasticsearch.ApiError, "rt", 408, v, idx),
+            _api(elasticsearch.exceptions.ApiError, "request_timeout", 408, v, idx),
+            _api(elasticsearch.exceptions.UnsupportedProductError, "t", 408, v, idx),
+            _api(elasticsearch.ApiError, "", 408, v, idx),
         ][v]
     if kind == "apiOther":
         return False, [
-            elasticsearch.NotFoundError("index_not_found_exception", _meta(404), {}),
-            elasticsearch.BadRequestError("bad", _meta(400), {}),
-            elasticsearch.ConflictError("conflict", _meta(409), {}),
-            elasticsearch.ApiError("internal", _meta(500), {}),
-            elasticsearch.ApiError("too_many_requests", _meta(429), {}),
-            elasticsearch.AuthenticationException("auth", _meta(401), {}),
+            _api(elasticsearch.NotFoundError, "index_not_found_exception", 404, v, idx),
+            _api(elasticsearch.BadRequestError, "bad", 400, v, idx),
+            _api(elasticsearch.ConflictError, "conflict", 409, v, idx),
+            _api(elasticsearch.ApiError, "internal", [500, 502, 503, 504][idx % 4], v, idx),
+            _api(elasticsearch.ApiError, "too_many_requests", 429, v, idx),
+            _api(elasticsearch.AuthenticationException, "auth", 401, v, idx),
         ][v]
     if kind == "transportOther":
+        errs = [(), (ValueError("v"),), (OSError(5, "io"), TypeError("t"))][idx % 3]
         return False, [
-            elastic_transport.SerializationError("cannot serialize"),
-            elastic_transport.SniffingError("sniff"),
-            elastic_transport.TransportError("generic"),
-            elasticsearch.exceptions.SerializationError("s2"),
-            elasticsearch.exceptions.TransportError("generic2"),
-            elastic_transport.TransportError("g3", errors=(ValueError("v"),)),
+            elastic_transport.SerializationError("cannot serialize", errors=errs),
+            elastic_transport.SniffingError(_Opaque("sniff"), errors=errs),
+            elastic_transport.TransportError("generic", errors=errs),
+            elasticsearch.exceptions.SerializationError(ValueError("s2"), errors=errs),
+            elasticsearch.exceptions.TransportError("", errors=errs),
+            elastic_transport.TransportError("g3 %s {}", errors=errs),
         ][v]
     if kind == "otherExc":
         return False, [
